@@ -69,6 +69,8 @@ trait DeIt: Sized {
     fn nx(self) -> Option<(Self::Item, Self)>;
     fn nb(self) -> Option<(Self::Item, Self)>;
     fn cp(&self) -> Self;
+    /// `copy().rev()` of the CURRENT state, drained from its front
+    fn rvd(&self, show: &dyn Fn(Self::Item) -> String) -> String;
 }
 
 macro_rules! impl_deit {
@@ -83,6 +85,19 @@ macro_rules! impl_deit {
             }
             fn cp(&self) -> Self {
                 self.copy()
+            }
+            fn rvd(&self, show: &dyn Fn(Self::Item) -> String) -> String {
+                let mut it = self.copy().rev();
+                let mut v: Vec<String> = Vec::new();
+                while let Some((x, n)) = it.next() {
+                    v.push(show(x));
+                    it = n;
+                    if v.len() > 100_000 {
+                        v.push("RUNAWAY".into());
+                        break;
+                    }
+                }
+                format!("[{}]", v.join(","))
             }
         }
     };
@@ -135,6 +150,10 @@ impl<I: DoubleEndedIterator + Clone, J: DoubleEndedIterator + Clone> DeIt for St
     }
     fn cp(&self) -> Self {
         self.clone()
+    }
+    fn rvd(&self, show: &dyn Fn(I::Item) -> String) -> String {
+        let v: Vec<String> = self.main.clone().rev().map(|x| show(x)).collect();
+        format!("[{}]", v.join(","))
     }
 }
 fn no_shadow() -> std::iter::Empty<()> {
@@ -211,7 +230,7 @@ struct Case<'c, I: DeIt, S> {
     script: Option<&'c [End]>,
 }
 
-fn emit<I: DeIt, S>(c: &Case<I, S>, out: &mut Out, hist: &[End], imp: &str, st: &Acc) {
+fn emit<I: DeIt, S>(c: &Case<I, S>, out: &mut Out, hist: &[End], imp: &str, st: &Acc, st_rv: &str) {
     let h: String = hist.iter().map(|e| if *e == F { 'F' } else { 'B' }).collect();
     let args = format!("{} {} {} {}", c.elem, c.len, c.size, h);
     let yielded = st.items.iter().filter(|s| s.starts_with('S')).count();
@@ -228,7 +247,7 @@ fn emit<I: DeIt, S>(c: &Case<I, S>, out: &mut Out, hist: &[End], imp: &str, st: 
         };
         format!("{}{}", dir, if c.size != 0 && c.len % c.size != 0 { "+uneven" } else { "" })
     };
-    out.line(c.fam, &args, imp, &st.render(c.with_rem), &tag);
+    out.line(c.fam, &args, imp, &format!("{};rv={}", st.render(c.with_rem), st_rv), &tag);
 }
 
 fn walk<I: DeIt, S: DeIt<Item = I::Item>>(
@@ -261,11 +280,13 @@ fn walk<I: DeIt, S: DeIt<Item = I::Item>>(
         hist.push(e);
         as_.push(so.item, so.alt, so.rem);
         match ri {
-            Err(_) => emit(c, out, hist, "PANIC", as_),
+            Err(_) => emit(c, out, hist, "PANIC", as_, &so.next.rvd(c.show)),
             Ok(io) => {
                 ai.push(io.item, io.alt, io.rem);
                 if io.done || so.done || hist.len() >= max_depth {
-                    emit(c, out, hist, &ai.render(c.with_rem), as_);
+                    // the state after the history, reversed (copy().rev()) and drained: rev() at ANY point
+                    let irv = catch_unwind(AssertUnwindSafe(|| io.next.rvd(c.show))).unwrap_or_else(|_| "PANIC".into());
+                    emit(c, out, hist, &format!("{};rv={}", ai.render(c.with_rem), irv), as_, &so.next.rvd(c.show));
                 } else {
                     walk(c, out, io.next, so.next, hist, ai, as_);
                 }
